@@ -4,6 +4,7 @@ C37 — Process list and KILL track and cancel exactly the targeted work.
 Helper lemmas first (namespace `Gms.ProcList`), the property theorems at the end in `Gms.C37`.
 -/
 import Gms.Model.ProcList
+import Gms.Model.ProcListSql
 import Gms.Generated.C37
 
 namespace Gms.ProcList
@@ -1090,6 +1091,188 @@ def aexec (a : ASt) (es : List Ev) : Option ASt :=
   | none => none
   | some t => some ((t.getLast?.map (·.1)).getD a)
 
+/-! ## The SQL layer (`Gms/Model/ProcListSql.lean`): statements executed through the engine -/
+
+/-- The refinement relation of the SQL layer: `Sim` on the `ProcessList` part, same close requests. -/
+structure SSim (s : SSt) (a : SASt) : Prop where
+  pl : Sim s.pl a.pl
+  closed : s.closed = a.closed
+
+theorem inRegion_kill (a : ASt) (c : Nat) : inRegion a (.kill c) = false := by
+  simp [inRegion, regionRemoveDuringQuery, regionReadyDuringOperation]
+
+theorem inRegion_endQ (a : ASt) (c pid : Nat) : inRegion a (.endQ c pid) = false := by
+  simp [inRegion, regionRemoveDuringQuery, regionReadyDuringOperation]
+
+/-- The Spec's `EndQuery` never reports anything but completion. -/
+theorem astep_endQ_res {a a' : ASt} {c pid : Nat} {r : Res} (h : astep a (.endQ c pid) = some (a', r)) :
+    r = .done := by
+  simp only [astep] at h
+  split at h
+  · cases h
+  · split at h
+    · split at h
+      · cases h
+      · split at h
+        · cases h
+        · cases h; rfl
+    · cases h; rfl
+
+theorem killStmtBody_pl (kt : KillType) (s : SSt) (c : Nat) :
+    (killStmtBody kt s c).pl = (step s.pl (.kill c)).1 := by
+  cases kt <;> rfl
+
+theorem killStmtBody_closed (kt : KillType) (s : SSt) (c : Nat) :
+    (killStmtBody kt s c).closed = match kt with
+      | .connection => s.closed ++ [c]
+      | .query => s.closed := by
+  cases kt <;> rfl
+
+/-- The `ProcessList` effect of any SQL-layer call is that of the direct calls it stands for. -/
+theorem sstep_pl (s : SSt) (e : SqlEv) : (sstep s e).1.pl = exec s.pl (lower e) := by
+  cases e with
+  | call e => simp [sstep, lower, exec]
+  | killStmt kt i pid c => simp [sstep, closeStmt, killStmtBody_pl, lower, exec]
+  | «show» i pid => simp [sstep, closeStmt, lower, exec]
+
+theorem exec_append (s : St) (es fs : List Ev) : exec s (es ++ fs) = exec (exec s es) fs := by
+  simp [exec, List.foldl_append]
+
+theorem sexec_pl (s : SSt) (es : List SqlEv) : (sexec s es).pl = exec s.pl (lowerAll es) := by
+  induction es generalizing s with
+  | nil => rfl
+  | cons e es ih =>
+    have h1 : sexec s (e :: es) = sexec (sstep s e).1 es := rfl
+    have h2 : lowerAll (e :: es) = lower e ++ lowerAll es := by simp [lowerAll]
+    rw [h1, h2, ih, sstep_pl, exec_append]
+
+theorem sstep_closed (s : SSt) (e : SqlEv) : (sstep s e).1.closed = s.closed ++ closeRequests [e] := by
+  cases e with
+  | call e => simp [sstep, closeRequests]
+  | killStmt kt i pid c => cases kt <;> simp [sstep, closeStmt, killStmtBody, closeRequests]
+  | «show» i pid => simp [sstep, closeStmt, closeRequests]
+
+theorem closeRequests_cons (e : SqlEv) (es : List SqlEv) :
+    closeRequests (e :: es) = closeRequests [e] ++ closeRequests es := by
+  cases e with
+  | call e => simp [closeRequests]
+  | killStmt kt i pid c => cases kt <;> simp [closeRequests]
+  | «show» i pid => simp [closeRequests]
+
+theorem sexec_closed (s : SSt) (es : List SqlEv) : (sexec s es).closed = s.closed ++ closeRequests es := by
+  induction es generalizing s with
+  | nil => simp [sexec, closeRequests]
+  | cons e es ih =>
+    have h1 : sexec s (e :: es) = sexec (sstep s e).1 es := rfl
+    rw [h1, ih, sstep_closed, closeRequests_cons e es, List.append_assoc]
+
+/-- One SQL-layer call: inside the protocol and outside the regions (no statement is in a region) the
+Impl model makes exactly the Spec's move — same result (for SHOW PROCESSLIST: same rows), same close
+requests — and re-establishes the refinement relation. -/
+theorem sim_sql_step {s : SSt} {a a' : SASt} {e : SqlEv} {r : SRes}
+    (hs : SSim s a) (hi : PInv a.pl.procs) (h : sastep a e = some (a', r)) (hr : sInRegion a e = false) :
+    (sstep s e).2 = r ∧ SSim (sstep s e).1 a' ∧ PInv a'.pl.procs := by
+  cases e with
+  | call e =>
+    simp only [sastep] at h
+    split at h
+    · cases h
+    · rename_i p r' hst
+      cases h
+      obtain ⟨h1, h2, h3⟩ := sim_step hs.pl hi hst hr
+      exact ⟨by simp [sstep, h1], ⟨h2, hs.closed⟩, h3⟩
+  | killStmt kt i pid c =>
+    simp only [sastep] at h
+    split at h
+    · cases h
+    · rename_i p r1 hk
+      split at h
+      · cases h
+      · rename_i p' r2 he
+        cases h
+        obtain ⟨_, k2, k3⟩ := sim_step hs.pl hi hk (inRegion_kill _ _)
+        obtain ⟨e1, e2, e3⟩ := sim_step k2 k3 he (inRegion_endQ _ _ _)
+        have hd := astep_endQ_res he
+        subst hd
+        refine ⟨?_, ⟨?_, ?_⟩, e3⟩
+        · simp [sstep, closeStmt, killStmtBody_pl, e1]
+        · simpa [sstep, closeStmt, killStmtBody_pl] using e2
+        · cases kt <;> simp [sstep, closeStmt, killStmtBody, hs.closed]
+  | «show» i pid =>
+    simp only [sastep] at h
+    split at h
+    · cases h
+    · rename_i p' r2 he
+      cases h
+      obtain ⟨e1, e2, e3⟩ := sim_step hs.pl hi he (inRegion_endQ _ _ _)
+      have hd := astep_endQ_res he
+      subst hd
+      refine ⟨?_, ⟨?_, ?_⟩, e3⟩
+      · simp [sstep, closeStmt, e1, hs.pl.procs]
+      · simpa [sstep, closeStmt] using e2
+      · simp [sstep, closeStmt, hs.closed]
+
+/-- The Spec's trace of an SQL-layer history; `none` as soon as one call leaves the protocol. -/
+def satrace : SASt → List SqlEv → Option (List (SASt × SRes))
+  | _, [] => some []
+  | a, e :: es =>
+    match sastep a e with
+    | none => none
+    | some (a', r) =>
+      match satrace a' es with
+      | none => none
+      | some t => some ((a', r) :: t)
+
+def sNoRegion : SASt → List SqlEv → Bool
+  | _, [] => true
+  | a, e :: es =>
+    match sastep a e with
+    | none => true
+    | some (a', _) => !sInRegion a e && sNoRegion a' es
+
+def SSimTrace : List (SSt × SRes) → List (SASt × SRes) → Prop
+  | [], [] => True
+  | (s, r) :: t, (a, r') :: t' => r = r' ∧ SSim s a ∧ PInv a.pl.procs ∧ SSimTrace t t'
+  | _, _ => False
+
+theorem sql_refinement_from {s : SSt} {a : SASt} (es : List SqlEv) (tr : List (SASt × SRes))
+    (hs : SSim s a) (hi : PInv a.pl.procs) (ht : satrace a es = some tr) (hr : sNoRegion a es = true) :
+    SSimTrace (srun s es) tr := by
+  induction es generalizing s a tr with
+  | nil => simp only [satrace] at ht; cases ht; simp [srun, SSimTrace]
+  | cons e es ih =>
+    simp only [satrace] at ht
+    split at ht
+    · cases ht
+    · rename_i a' r hstep
+      split at ht
+      · cases ht
+      · rename_i t htr
+        cases ht
+        simp only [sNoRegion, hstep, Bool.and_eq_true, Bool.not_eq_true'] at hr
+        obtain ⟨h1, h2, h3⟩ := sim_sql_step hs hi hstep hr.1
+        simp only [srun, SSimTrace]
+        exact ⟨h1, h2, h3, ih t h2 h3 htr hr.2⟩
+
+theorem ssim_init : SSim SSt.init SASt.init := ⟨sim_init, rfl⟩
+
+theorem good_of_ssimTrace {t : List (SSt × SRes)} {t' : List (SASt × SRes)} (h : SSimTrace t t') :
+    ∀ x ∈ t, Good x.1.pl := by
+  induction t generalizing t' with
+  | nil => intro x hx; cases hx
+  | cons y t ih =>
+    cases t' with
+    | nil => obtain ⟨s, r⟩ := y; simp [SSimTrace] at h
+    | cons y' t' =>
+      obtain ⟨s, r⟩ := y
+      obtain ⟨a, r'⟩ := y'
+      simp only [SSimTrace] at h
+      intro x hx
+      simp only [List.mem_cons] at hx
+      rcases hx with hx | hx
+      · subst hx; exact good_of_sim h.2.1.pl h.2.2.1
+      · exact ih h.2.2.2 x hx
+
 end Gms.ProcList
 
 /-! # C37 — the property theorems -/
@@ -1248,6 +1431,116 @@ theorem no_late_cancel (es : List Ev) (e : Ev) (tok : Nat)
 
 example : (step (exec St.init [.add 1, .ready 1, .beginQ 1 1, .kill 1, .endQ 1 1]) (.beginQ 1 2)).2 = .ok 1 := by decide
 
+/-! ## The SQL layer: KILL / SHOW PROCESSLIST statements executed through the engine -/
+
+/-- **Refinement at the SQL layer (guarded by the same two regions; no statement is in a region).**
+For every history of direct `ProcessList` calls *and* statements `KILL QUERY n` / `KILL CONNECTION n` /
+`KILL n` / `SHOW PROCESSLIST` executed through the engine that stays inside the protocol and whose
+direct calls avoid the two listed regions, the model of the engine path (rowexec `buildKill`,
+`buildShowProcessList`, the tracked iterator's `EndQuery`) returns the Spec's result at every call —
+for `SHOW PROCESSLIST` the rows are exactly the Spec's sessions with their running queries — makes
+exactly the Spec's close requests, and keeps the `ProcessList` state in the relation `Sim`. -/
+theorem sql_refinement_partial (es : List SqlEv) (tr : List (SASt × SRes))
+    (ht : satrace SASt.init es = some tr) (hr : sNoRegion SASt.init es = true) :
+    SSimTrace (srun SSt.init es) tr :=
+  sql_refinement_from es tr ssim_init PInv_nil ht hr
+
+/-- Counters = counts and pid index = owners after every call of every covered SQL-layer history. -/
+theorem sql_invariants_hold (es : List SqlEv) (tr : List (SASt × SRes))
+    (ht : satrace SASt.init es = some tr) (hr : sNoRegion SASt.init es = true) :
+    ∀ x ∈ srun SSt.init es, Good x.1.pl :=
+  good_of_ssimTrace (sql_refinement_partial es tr ht hr)
+
+/-- **Lowering — all histories, no protocol assumed.** The `ProcessList` state after a history with
+statements is the state after the history in which every statement is replaced by the direct calls it
+stands for (`KILL … c` by `Kill c; EndQuery`, `SHOW PROCESSLIST` by `EndQuery`). Everything proved
+about all histories of direct calls therefore holds with statements in them. -/
+theorem sql_lowering (es : List SqlEv) : (sexec SSt.init es).pl = exec St.init (lowerAll es) :=
+  sexec_pl SSt.init es
+
+/-- Token discipline after every SQL-layer history whatsoever. -/
+theorem sql_tokens_disciplined (es : List SqlEv) : TokInv (sexec SSt.init es).pl := by
+  rw [sql_lowering]; exact tokens_disciplined (lowerAll es)
+
+/-- A cancellation by a KILL statement never affects a later query: the context handed out by a
+successful `BeginQuery`/`BeginOperation` after any SQL-layer history is fresh and registered for its
+own connection only. -/
+theorem sql_no_late_cancel (es : List SqlEv) (e : Ev) (tok : Nat)
+    (h : (step (sexec SSt.init es).pl e).2 = .ok tok) :
+    tok ∉ (step (sexec SSt.init es).pl e).1.cancelled ∧
+    held (step (sexec SSt.init es).pl e).1.procs e.conn = some tok ∧
+    ∀ c, c ≠ e.conn → held (step (sexec SSt.init es).pl e).1.procs c ≠ some tok := by
+  rw [sql_lowering] at h ⊢
+  exact no_late_cancel (lowerAll es) e tok h
+
+/-- **A KILL statement of either type cancels what the target is doing — every state, every issuer,
+no protocol assumed.** If a cancel func is registered for connection `c` (a running query or an
+operation), it has been called when `KILL QUERY c` / `KILL CONNECTION c` / `KILL c` returns. -/
+theorem kill_stmt_cancels_target (s : SSt) (kt : KillType) (i pid c t : Nat)
+    (h : held s.pl.procs c = some t) :
+    t ∈ (sstep s (.killStmt kt i pid c)).1.pl.cancelled := by
+  have h1 : t ∈ (step s.pl (.kill c)).1.cancelled := by
+    rw [kill_exact, h]; exact mem_cancel_self _ _
+  have h2 := (step_shape (step s.pl (.kill c)).1 (.endQ i pid)).mono t h1
+  simpa [sstep, closeStmt, killStmtBody_pl] using h2
+
+/-- **… and nothing else**: a context that is cancelled after a KILL statement was cancelled before,
+or it was registered for the target, or it is the issuing statement's own (ended by the engine's
+`EndQuery`). -/
+theorem kill_stmt_targets_only (s : SSt) (kt : KillType) (i pid c t : Nat)
+    (h : t ∈ (sstep s (.killStmt kt i pid c)).1.pl.cancelled) :
+    t ∈ s.pl.cancelled ∨ held s.pl.procs c = some t ∨ held s.pl.procs i = some t := by
+  have h' : t ∈ (step (step s.pl (.kill c)).1 (.endQ i pid)).1.cancelled := by
+    simpa [sstep, closeStmt, killStmtBody_pl] using h
+  rcases kill_targets_only _ _ t h' with h1 | h1
+  · rcases kill_targets_only _ _ t h1 with h2 | h2
+    · exact Or.inl h2
+    · exact Or.inr (Or.inl h2)
+  · right; right
+    rw [kill_exact] at h1
+    exact h1
+
+/-- The two kill types differ in the close request only: on the `ProcessList` they do the same. -/
+theorem kill_stmt_types_agree (s : SSt) (i pid c : Nat) :
+    (sstep s (.killStmt .connection i pid c)).1.pl = (sstep s (.killStmt .query i pid c)).1.pl := by
+  simp [sstep, closeStmt, killStmtBody_pl]
+
+/-- **Close requests — all histories.** The connections the server is asked to close are exactly the
+targets of the `KILL CONNECTION` / `KILL` statements, in order: `KILL QUERY`, `SHOW PROCESSLIST` and
+the direct calls request nothing. -/
+theorem close_requests_exact (es : List SqlEv) : (sexec SSt.init es).closed = closeRequests es := by
+  rw [sexec_closed]; rfl
+
+/-- Non-vacuity: `KILL CONNECTION 2` issued by connection 1 while connection 2 runs a query — covered
+(inside the protocol, outside the regions); connection 2's context (token 1) is cancelled, the issuer's
+own query (token 0) is ended, connection 2 is still listed in command Query with its `Threads_running`
+count (the server removes it when its handler unwinds) and exactly connection 2 is asked to close. -/
+def sampleSqlKillConn : List SqlEv :=
+  [.call (.add 1), .call (.ready 1), .call (.add 2), .call (.ready 2), .call (.beginQ 1 1), .call (.beginQ 2 2),
+   .killStmt .connection 1 1 2, .call (.endQ 1 1)]
+
+example : (satrace SASt.init sampleSqlKillConn).isSome = true ∧ sNoRegion SASt.init sampleSqlKillConn = true := by decide
+example : (sexec SSt.init sampleSqlKillConn).pl.cancelled = [0, 1] ∧ (sexec SSt.init sampleSqlKillConn).closed = [2] ∧
+    (sexec SSt.init sampleSqlKillConn).pl.running = 1 := by decide
+example : held (sexec SSt.init (sampleSqlKillConn.take 6)).pl.procs 2 = some 1 := by decide
+
+/-- Non-vacuity: `KILL QUERY`, `KILL CONNECTION` of a busy and of an idle connection, `SHOW PROCESSLIST`
+and a `KILL` of an unknown id on four connections (harness corpus case 9). -/
+def sampleSqlHistory : List SqlEv :=
+  [.call (.add 1), .call (.ready 1), .call (.add 2), .call (.ready 2), .call (.add 3), .call (.ready 3), .call (.add 4), .call (.ready 4),
+   .call (.beginQ 2 1), .call (.beginQ 3 2), .call (.beginQ 4 3),
+   .call (.beginQ 1 4), .killStmt .query 1 4 2, .call (.endQ 1 4),
+   .call (.beginQ 1 5), .killStmt .connection 1 5 3, .call (.endQ 1 5),
+   .call (.endQ 2 1),
+   .call (.beginQ 1 6), .killStmt .connection 1 6 2, .call (.endQ 1 6),
+   .call (.beginQ 1 7), .show 1 7, .call (.endQ 1 7),
+   .call (.beginQ 1 8), .killStmt .connection 1 8 77, .call (.endQ 1 8),
+   .call (.endQ 3 2), .call (.remove 3), .call (.endQ 4 3)]
+
+example : (satrace SASt.init sampleSqlHistory).isSome = true ∧ sNoRegion SASt.init sampleSqlHistory = true := by decide
+example : (sexec SSt.init sampleSqlHistory).closed = [3, 2, 77] ∧ (sexec SSt.init sampleSqlHistory).pl.running = 0 ∧
+    2 ∉ (sexec SSt.init (sampleSqlHistory.take 17)).pl.cancelled ∧ 1 ∈ (sexec SSt.init (sampleSqlHistory.take 17)).pl.cancelled := by decide
+
 /-! ## The repaired defect F-C37-a (`begin_query_error_path`) -/
 
 /-- **Full statement for `BeginQuery` (holds since the `fix:` commit; it was false before).** Every
@@ -1342,7 +1635,12 @@ returns follows the increment — if the increment moves back up, this obligatio
 `fixed_begin_query_error_path` is the replay), `RemoveConnection` does not touch
 `Threads_running`, every event method holds `pl.mu` (atomic steps), `EndQuery`/`EndOperation`/`Kill`
 guard (or not) the `Kill` func exactly as modelled, and the command names are the three MySQL
-ones. -/
+ones. SQL layer: the iterator body of rowexec `buildKill` calls `ProcessList.Kill` for *both* kill types
+and `KillConnection` in addition for type Connection only (`killStmtBody`; the calls are evaluated per
+kill type from the if/switch structure, so a `KILL CONNECTION` that no longer calls `Kill` breaks this
+obligation and `sampleSqlKillConn` is the replay), planbuilder maps `Kill.Connection` to the two types as
+modelled, and every statement's iterator is still wrapped by the tracked iterator whose `done` calls
+`ProcessList.EndQuery` (`closeStmt`). -/
 theorem facts_match :
     Generated.C37.counterEffects = counterEffects ∧
     Generated.C37.beginQueryIncrementBeforeErrorReturns = false ∧
@@ -1352,7 +1650,11 @@ theorem facts_match :
       ["AddConnection", "BeginOperation", "BeginQuery", "ConnectionReady", "EndOperation", "EndQuery", "Kill",
        "Processes", "RemoveConnection"] ∧
     Generated.C37.killNilGuards = [("EndOperation", true), ("EndQuery", false), ("Kill", true), ("RemoveConnection", true)] ∧
-    Generated.C37.commandNames = [("ProcessCommandConnect", "Connect"), ("ProcessCommandQuery", "Query"), ("ProcessCommandSleep", "Sleep")] := by
+    Generated.C37.commandNames = [("ProcessCommandConnect", "Connect"), ("ProcessCommandQuery", "Query"), ("ProcessCommandSleep", "Sleep")] ∧
+    Generated.C37.killStmtCalls = killStmtCalls ∧
+    Generated.C37.killPlanTypes = killPlanTypes ∧
+    Generated.C37.trackedIterDoneCalls = ["ProcessList.EndQuery"] ∧
+    Generated.C37.finalizeItersAddsTrackedIter = true := by
   decide
 
 end Gms.C37
